@@ -132,6 +132,15 @@ def extra_shapes(backend):
         qs += [f"ds.Select(lambda e: {S}.Select(lambda j: j.getAttributeFloat('w')))", f"ds.Select(lambda e: {S}.Select(lambda j: j.getAttributeVectorFloat('v')))",
                "ds.Select(lambda e: e.EventInfo('EI').runNumber())",
                f"MetaData(ds, {{'metadata_type': 'add_job_script', 'name': 's', 'script': ['# x'], 'depends_on': []}}).Select(lambda e: {S}.Count())"]
+    if backend == "atlas":
+        # two tool blocks whose constructor / initialize lines each open and close a block: line TEXTS repeat
+        # (closing braces, identical statements) within and across the blocks of one query
+        def blk(n):
+            return ("{'metadata_type': 'inject_code', 'name': '%s', 'body_includes': ['vector'], 'private_members': ['int m_%s;'], "
+                    "'instance_initialization': ['m_%s(0)'], 'ctor_lines': ['if (m_%s == 0) {', 'm_%s = 1;', '}', 'if (m_%s == 1) {', 'm_%s = 2;', '}'], "
+                    "'initialize_lines': ['if (m_%s == 2) {', 'ANA_MSG_INFO(\"setting up\");', '}', 'ANA_MSG_INFO(\"setting up\");']}") % ((n,) * 8)
+        qs += [f"MetaData(MetaData(ds, {blk('ta')}), {blk('tb')}).Select(lambda e: {S}.Count())",
+               f"MetaData(ds, {blk('tc')}).Select(lambda e: {S}.Select(lambda j: j.pt()))"]
     if a.has_nonnull:
         qs += [f"ds.Select(lambda e: {S}.Where(lambda m: isNonnull(m.globalTrack())).Select(lambda m: m.globalTrack().pt()))"]
     return qs
@@ -214,6 +223,12 @@ def main(tier="quick"):
         for q in extra_shapes(backend):
             cases.append(Case(pid, backend, q, md, {"source": "shape"}))
             pid += 1
+        from mc.lang import argscope
+        for ctx, q in argscope.queries(backend):
+            if q not in seen:
+                seen.add(q)
+                cases.append(Case(pid, backend, q, argscope.extra_metadata(q) + md, {"source": "argscope"}))
+                pid += 1
         # the partiality programs (partial operations under guards, in tests and arms of conditionals, behind Wheres):
         # the shapes in which scope placement is most delicate
         from mc.checks import c04
